@@ -213,6 +213,10 @@ func runC14(env *Env, rc *RunCtx) {
 			}
 			return d
 		}
+		if !r.Returned && r.Outcome == DriveStepLimit {
+			rc.Count("inconclusive_step_limit", 1)
+			return
+		}
 		if !r.Returned {
 			rc.Violate("no-result", "concurrent", "concurrent requests did not all return", w(nil), e, et)
 			return
